@@ -8,6 +8,7 @@ F = {
     "F5": "F5-template-strength-dishonest",
     "F16": "F16-generic-div-f-integer",
     "N7": "C02-N7-concat-operands-unparenthesised",
+    "N9": "C02-N9-tilde-pattern-hole",
     "N10": "C02-N10-date-format-quote-escaped-twice",
     # repaired in /repo (status "fixed"): only used by the directed replays, which must NOT reproduce them
     "F17": "F17-timestamp-literal-text-compare",
@@ -28,8 +29,6 @@ def triple_class(tr, dialect=None):
     """the known class of one structurally bad (parent, site, child) triple of Model/SqlCompat.v, or None.
     Mirrors Model/SqlCompat.v `known_triple`."""
     p, site, c = tr
-    if c in DISHONEST:
-        return F["F5"]
     if p == "concat" and dialect in NO_CONCAT_FUNCTION:
         return F["N7"]
     return None
@@ -39,8 +38,6 @@ def pair_class(pr):
     """an unlicensed rotated operator pair (spellings) deeper on a spine: only a dishonest template (top-level
     `*` or `/` under a declared strength 100) still produces one"""
     o, o2 = pr
-    if o in ("%", "/", "*") and o2 in ("*", "/"):
-        return F["F5"]
     return None
 
 
